@@ -18,7 +18,7 @@ PID = "C10"
 LEVEL = "exploration"
 RULE = ("coordinates: tracer x ice {Specialized x (Antarctic, Arasim, Greenland), Basic x Antarctic, Uniform x UniformIce, Layered x (U|U, A|A)}, "
         "signal model {ARZ, AVZ, ZHS}, generator {List 1 particle, List 3 particles incl. a below-threshold weight, List with a particle in the shadow zone ahead of one that is not, Cylindrical, Rectangular "
-        "(owned randomness), FileGenerator}, offcone_max {None, 40, 0.5, 0}, weight_min {None, 0.1, (0.5,0.25), 0}, attenuation_interpolation {0.1, None}, "
+        "(owned randomness), FileGenerator}, offcone_max {None, 40, 0.5, 0}, weight_min {None, 0.1, (0.5,0.25), 0, exactly a particle's weight}, attenuation_interpolation {0.1, None}, "
         "writer {none, recording stub, real HDF5}, triggers {None, function, dict, dict whose global coincidence fails while a component fires}, antenna set {2, 1, 3 antennas incl. one in the air}; all "
         "configurations within deviation bound 2 (quick) / 3 (thorough) of the base; two consecutive events per configuration; "
         "distinct_nontrivial = distinct configurations in which at least one non-empty signal was delivered")
@@ -32,7 +32,8 @@ COORDS = {
     "signal": ["ARZ", "AVZ", "ZHS"],
     "gen": ["list1", "list3", "cyl", "box", "file", "list_shadow"],
     "offcone": [None, 40, 0.5, 0],
-    "weight": [None, 0.1, (0.5, 0.25), 0],
+    # 0.2 * 0.3: exactly the weight of the second particle of "list3" (a particle whose weight EQUALS the threshold passes)
+    "weight": [None, 0.1, (0.5, 0.25), 0, 0.2 * 0.3],
     "interp": [0.1, None],
     "writer": ["none", "stub", "hdf5"],
     "triggers": ["none", "func", "dict", "dict_veto"],
@@ -136,7 +137,8 @@ def _generator(name, tmp, source):
         # particle (another vertex) does reach them.  What an antenna gets from one particle says nothing about the next.
         far = _particle(1, (0.9, 0.9))
         far.vertex = np.array([3000.0, 0.0, -30.0])
-        return generation.ListGenerator([Event([far, _particle(0, (0.9, 0.8))]), Event([_particle(2, (0.8, 0.8)), far])])
+        # (second event: a particle of weight exactly zero -- without a cut, or with weight_min = 0, it is processed like any other)
+        return generation.ListGenerator([Event([far, _particle(0, (0.9, 0.8))]), Event([_particle(2, (0.0, 0.8)), far])])
     class M(Interaction):
         def choose_interaction(self):
             return self.Type.charged_current
